@@ -139,6 +139,24 @@ func readHeader(f *os.File) (*header, error) {
 		return nil, fmt.Errorf("internal error: need at least one chunk, found %d", numOffsets-1)
 	}
 
+	if h.uncompressedSize <= 0 {
+		return nil, fmt.Errorf("internal error: invalid uncompressed size %d", h.uncompressedSize)
+	}
+
+	// The readers index the chunk table by offset / chunkSize, so the table
+	// must have exactly one entry per chunk (plus the final one).
+	expectedChunks := int64(1)
+	if h.compression == Zstandard {
+		if h.chunkSize == 0 {
+			return nil, errors.New("internal error: chunk size is zero")
+		}
+		expectedChunks = (h.uncompressedSize + int64(h.chunkSize) - 1) / int64(h.chunkSize)
+	}
+	if numOffsets-1 != expectedChunks {
+		return nil, fmt.Errorf("internal error: expected %d chunks for size %d and chunk size %d, found %d",
+			expectedChunks, h.uncompressedSize, h.chunkSize, numOffsets-1)
+	}
+
 	metadataSize := numOffsets*8 + 8 + 1 + 4 + 8
 	if int64(frameSize) != metadataSize {
 		return nil, fmt.Errorf("metadata frame size %d, but metadata size %d",
